@@ -42,7 +42,8 @@ def runLine (line : String) : String :=
     let ts := rest.map fb
     let tEnd := ts.getLast?.getD (fb t0)
     let st : St Float Float Unit := ⟨fb t0, fb y0, fb t0, fb y0, ()⟩
-    let err := fun (a b : Float) => (a - b).abs * fb scale
+    -- like the real `compute_error`, the error oracle never returns less than eps = 1e-7 (the controller divides by it)
+    let err := fun (a b : Float) => let e := (a - b).abs * fb scale; if e < 1e-7 then 1e-7 else e
     match aoutputs tEnd (toyStep (fb c1) (fb c2) (fb c3)) interpF (fun a b => a + b) (fun a b => 0.5 * (a + b))
         err updateF (fb dtmin) 1 fuel.toNat! ts ⟨st, fb dt, none⟩ [] [] with
     | none => "nofuel"
